@@ -27,6 +27,7 @@ type ev struct {
 }
 
 type cworld struct {
+	resume   [8]time.Time // clock when a request's handler resumed after its in-flight yield
 	cb       *cbreaker.CircuitBreaker
 	evs      [64]ev
 	n        int
@@ -45,6 +46,9 @@ func (w *cworld) add(e ev) int {
 
 //go:norace
 func (w *cworld) seq() int { return w.n }
+
+//go:norace
+func (w *cworld) resumed(t int) { w.resume[t] = clock.Now() }
 
 //go:norace
 func (w *cworld) arrive(t int) { w.arrSeq[t] = w.n; w.arrClock[t] = clock.Now() }
@@ -86,6 +90,7 @@ func newBreaker(w *cworld, code *int) *cbreaker.CircuitBreaker {
 		t := int(r.Header.Get("T")[0] - '0')
 		w.add(ev{kind: 0, thread: t, clock: clock.Now()})
 		vrt.Yield() // the request is in flight
+		w.resumed(t)
 		rw.WriteHeader(*code)
 	})
 	cb, err := cbreaker.New(h, "NetworkErrorRatio() > 0.5", cbreaker.FallbackDuration(cFallback), cbreaker.RecoveryDuration(cRecovery),
@@ -192,6 +197,100 @@ func tripRace(prop string, nreq, bound int) *sched.Scenario {
 
 func (w *cworld) requestAs(t int) { w.request(t) }
 
+// shielded: oracle shared by the C05 scenarios. For every request that reached the handler,
+// look at the last completion (before the request arrived) that observed the breaker
+// tripped while no later completion observed it in standby: the trip happened after that
+// completing request resumed from its in-flight yield, so the request under scrutiny must
+// have been refused if it arrived less than the fallback duration after that instant.
+func (w *cworld) shielded(fallback time.Duration) []vrt.Failure {
+	var f []vrt.Failure
+	for i := 0; i < w.n; i++ {
+		e := w.evs[i]
+		if e.kind != 0 {
+			continue
+		}
+		a := w.arrSeq[e.thread]
+		k := -1
+		for j := 0; j < a; j++ {
+			if w.evs[j].kind == 2 {
+				if w.evs[j].state == "tripped" {
+					k = j
+				} else if w.evs[j].state == "standby" {
+					k = -1
+				}
+			}
+		}
+		if k < 0 {
+			continue
+		}
+		tripNotBefore := w.resume[w.evs[k].thread]
+		if tripNotBefore.IsZero() {
+			continue // the observing request was itself refused: it did not trip anything
+		}
+		if w.arrClock[e.thread].Before(tripNotBefore.Add(fallback)) && !w.arrClock[e.thread].Before(w.evs[k].clock) {
+			f = append(f, vrt.Failure{Key: "C05:request-passed-during-fallback:concurrent",
+				Detail: fmt.Sprintf("request %d arrived at +%v, after a completion had observed the breaker tripped at +%v (fallback %v), and still reached the protected handler", e.thread, w.arrClock[e.thread].Sub(base), w.evs[k].clock.Sub(base), fallback)})
+		}
+	}
+	return f
+}
+
+// retripRace (C05): a slow request B is in flight since standby; C trips the breaker; the
+// fallback period passes; A' starts recovery (guided preparation). Then B completes with a
+// failure and re-trips the breaker while A is arriving, the clock moves on by less than the
+// fallback duration, and D arrives: D must be refused.
+func retripRace(bound int) *sched.Scenario {
+	sc := &sched.Scenario{Name: fmt.Sprintf("breaker-retrip-race/bound=%d", bound), Bound: bound}
+	const fb, rc = 10 * time.Second, time.Second
+	sc.Guide = []vrt.GuideStep{{T: 0, Until: "yield"}, {T: 1, Until: "yield"}, {T: 1, Until: "done"}, {T: 2, Until: "yield"}, {T: 3, Until: "done"}}
+	sc.New = func() *sched.Instance {
+		clock.VerifInstall(base, nil)
+		w := &cworld{}
+		code := 502
+		h := http.HandlerFunc(func(rw http.ResponseWriter, r *http.Request) {
+			t := int(r.Header.Get("T")[0] - '0')
+			w.add(ev{kind: 0, thread: t, clock: clock.Now()})
+			vrt.Yield()
+			w.resumed(t)
+			rw.WriteHeader(code)
+		})
+		cb, err := cbreaker.New(h, "NetworkErrorRatio() > 0.5", cbreaker.FallbackDuration(fb), cbreaker.RecoveryDuration(rc), cbreaker.CheckPeriod(100*time.Millisecond))
+		if err != nil {
+			panic(err)
+		}
+		w.cb = cb
+		inst := &sched.Instance{Names: []string{"B-slow", "C-trips", "clock", "A1-starts-recovery", "A-arrives", "D-late"}}
+		inst.Bodies = []func(){
+			func() { w.request(0) },
+			func() { w.request(1) },
+			func() {
+				clock.VerifAdvance(fb) // the fallback period of the first trip is over
+				vrt.Yield()
+				clock.VerifAdvance(300 * time.Millisecond)
+				vrt.Yield()
+				clock.VerifAdvance(2 * time.Second)
+			},
+			func() { w.request(3) },
+			func() { w.request(4) },
+			func() { w.request(5); w.request(6) },
+		}
+		inst.Check = func(x *vrt.Exec) []vrt.Failure { return w.shielded(fb) }
+		inst.Outcome = func() string {
+			var sb strings.Builder
+			for i := 0; i < w.n; i++ {
+				if w.evs[i].kind != 2 {
+					fmt.Fprintf(&sb, "%d%c", w.evs[i].thread, "pr"[w.evs[i].kind])
+				} else {
+					sb.WriteString(w.evs[i].state[:1])
+				}
+			}
+			return sb.String()
+		}
+		return inst
+	}
+	return sc
+}
+
 // recoveryRace: the breaker has tripped and the fallback period is over; three
 // requests arrive while the clock thread moves through the recovery period. The
 // pass/refuse decisions, in decision order, must obey the ramp.
@@ -281,6 +380,8 @@ func Scenarios(prop, tier string) []*sched.Scenario {
 	switch prop {
 	case "C12":
 		return []*sched.Scenario{recoveryRace(3, b, 200), recoveryRace(2, b+1, 200), recoveryRace(3, b, 502)}
+	case "C05":
+		return []*sched.Scenario{tripRace(prop, 3, b), tripRace(prop, 2, b+1), retripRace(b)}
 	default:
 		return []*sched.Scenario{tripRace(prop, 3, b), tripRace(prop, 2, b+1)}
 	}
